@@ -44,6 +44,20 @@ def _as_bool01(v):
     return None
 
 
+def _as_nbool01(v, n):
+    """Bool term c when v is (syntactically) (2^n - 1) - If(c, 1, 0): all ones with the low bit cleared iff c"""
+    if not isinstance(v, SV):
+        return None
+    e = v._e
+    if e is None or not z3.is_app(e) or e.decl().kind() != z3.Z3_OP_SUB:
+        return None
+    ch = e.children()
+    if len(ch) != 2 or not z3.is_int_value(ch[0]) or ch[0].as_long() != _M(n) - 1:
+        return None
+    w = SV(ch[1])
+    return _as_bool01(w)
+
+
 def install(E):
     from .models import GuardedPtr
     # ------------------------------------------------------------------ integer binops
@@ -200,6 +214,23 @@ def install(E):
                 return 0
         if cb and b == 1 and op in ("udiv", "sdiv"):
             return a
+        M = _M(n)
+        if op == "lshr" and cb and b == n - 1:
+            # sign bit
+            c = (a.s < 0) if a.s is not None else (a.e >= _M(n - 1))
+            return SV(z3.If(c, IV(1), IV(0)), w=n)
+        if op == "xor" and ((cb and b == M - 1) or (ca and a == M - 1)):
+            o = a if cb else b
+            bo = _as_bool01(o)
+            if bo is not None:
+                return SV(IV(M - 1) - z3.If(bo, IV(1), IV(0)), w=n)
+        if op == "and":
+            na, nb = _as_nbool01(a, n), _as_nbool01(b, n)
+            ba, bb = _as_bool01(a), _as_bool01(b)
+            if na is not None and bb is not None:
+                return SV(z3.If(z3.And(z3.Not(na), bb), IV(1), IV(0)), w=n)
+            if nb is not None and ba is not None:
+                return SV(z3.If(z3.And(z3.Not(nb), ba), IV(1), IV(0)), w=n)
         if op in ("and", "or", "xor", "mul"):
             # 0/1-valued operands (zext of i1): stay in the Boolean world
             ba, bb = _as_bool01(a), _as_bool01(b)
@@ -575,6 +606,9 @@ def install(E):
         b = _as_bool01(v)
         if b is not None:
             return SV(e, w=n)
+        nb = _as_nbool01(v, sn)
+        if nb is not None:
+            return SV(IV(_M(n) - 1) - z3.If(nb, IV(1), IV(0)), w=n)
         return SV(e % _M(n), w=n)
 
     def sym_zext(self, v, sn, n):
